@@ -675,3 +675,73 @@ pub mod store {
 		tree.core.seq_num()
 	}
 }
+
+/// The real `WriteStallController` over a harness-controlled count provider (C17: no lost wake-up).
+pub mod stall {
+	use std::sync::atomic::{AtomicUsize, Ordering};
+	use std::sync::Arc;
+
+	use crate::stall::{StallCounts, StallThresholds, WriteStallController, WriteStallCountProvider};
+
+	struct Counts {
+		immutable: AtomicUsize,
+	}
+
+	impl WriteStallCountProvider for Counts {
+		fn get_stall_counts(&self) -> StallCounts {
+			StallCounts {
+				immutable_memtables: self.immutable.load(Ordering::SeqCst),
+				l0_files: 0,
+			}
+		}
+	}
+
+	pub struct Ctl {
+		counts: Arc<Counts>,
+		inner: WriteStallController,
+	}
+
+	impl Default for Ctl {
+		fn default() -> Self {
+			Self::new()
+		}
+	}
+
+	impl Ctl {
+		/// Stalls when the immutable-memtable count reaches 1.
+		pub fn new() -> Self {
+			let counts = Arc::new(Counts {
+				immutable: AtomicUsize::new(0),
+			});
+			let inner = WriteStallController::new(
+				Arc::clone(&counts) as Arc<dyn WriteStallCountProvider>,
+				StallThresholds {
+					memtable_limit: 1,
+					l0_file_limit: 1,
+				},
+			);
+			Self {
+				counts,
+				inner,
+			}
+		}
+
+		/// Raises (`true`) or clears (`false`) the stall condition; signalling is the caller's job.
+		pub fn set_stalled(&self, stalled: bool) {
+			self.counts.immutable.store(usize::from(stalled), Ordering::SeqCst);
+		}
+
+		/// `WriteStallController::check`: `Ok(())` when the writer may proceed, `Err` on shutdown.
+		pub async fn check(&self) -> std::result::Result<(), String> {
+			self.inner.check().await.map(|_| ()).map_err(|e| e.to_string())
+		}
+
+		pub fn signal_work_done(&self) {
+			self.inner.signal_work_done();
+		}
+
+		pub fn signal_shutdown(&self) {
+			self.inner.signal_shutdown();
+		}
+	}
+}
